@@ -129,6 +129,9 @@ class StandardRequestHandler(ControlRequestHandler):
             # Keeps track of whether we've sent a GET_DESCRIPTOR data packet we're expecting an ACK to.
             expecting_ack = Signal()
 
+            # Keep track of whether we've answered the status stage of a CLEAR_FEATURE request.
+            clear_feature_status_sent = Signal()
+
             def handle_new_setup():
                 """ Every new SETUP starts a fresh control transfer [USB 2.0: 8.5.3]; even if the previous
                 transfer was abandoned mid-way. Must be the last statement of each FSM state. """
@@ -143,6 +146,7 @@ class StandardRequestHandler(ControlRequestHandler):
 
                         # Forget anything we were waiting for.
                         expecting_ack                          .eq(0),
+                        clear_feature_status_sent              .eq(0),
                     ]
 
                     with m.If(~skiplisted):
@@ -199,21 +203,26 @@ class StandardRequestHandler(ControlRequestHandler):
                     handle_new_setup()
 
                 with m.State('CLEAR_FEATURE'):
-                    # Provide an response to the STATUS stage.
-                    with m.If(interface.status_requested):
+                    # If our stall condition is met, stall; otherwise, send a ZLP [USB 8.5.3].
+                    # For now, we only implement clearing ENDPOINT_HALT.
+                    stall_condition = \
+                        (setup.recipient != USBRequestRecipient.ENDPOINT) | \
+                        (setup.value     != USBStandardFeatures.ENDPOINT_HALT)
 
-                        # If our stall condition is met, stall; otherwise, send a ZLP [USB 8.5.3].
-                        # For now, we only implement clearing ENDPOINT_HALT.
-                        stall_condition = \
-                            (setup.recipient != USBRequestRecipient.ENDPOINT) | \
-                            (setup.value     != USBStandardFeatures.ENDPOINT_HALT)
-                        with m.If(stall_condition):
+                    # An unsupported feature is stalled at the first opportunity; even if the host
+                    # (incorrectly) begins with a data stage.
+                    with m.If(stall_condition):
+                        with m.If(interface.data_requested | interface.status_requested):
                             m.d.comb += handshake_generator.stall.eq(1)
-                        with m.Else():
-                            m.d.comb += self.send_zlp()
 
-                    # Accept the relevant value after the packet is ACK'd...
-                    with m.If(interface.handshakes_in.ack):
+                    # Otherwise, provide an response to the STATUS stage.
+                    with m.Elif(interface.status_requested):
+                        m.d.comb += self.send_zlp()
+                        m.d.usb  += clear_feature_status_sent.eq(1)
+
+                    # Accept the relevant value after our status stage is ACK'd. Handshakes are broadcast to
+                    # every endpoint; so only an ACK that answers our own ZLP completes the request.
+                    with m.If(interface.handshakes_in.ack & clear_feature_status_sent):
                         m.d.comb += [
                             interface.clear_endpoint_halt.enable   .eq(1),
                             interface.clear_endpoint_halt.direction.eq(setup.index[7]),
@@ -221,7 +230,12 @@ class StandardRequestHandler(ControlRequestHandler):
                         ]
 
                         # ... and then return to idle.
+                        m.d.usb += clear_feature_status_sent.eq(0)
                         m.next = 'IDLE'
+
+                    # Any new token starts a different transaction; a later ACK isn't for our status stage.
+                    with m.If(interface.tokenizer.new_token):
+                        m.d.usb += clear_feature_status_sent.eq(0)
 
                     handle_new_setup()
 
